@@ -42,6 +42,7 @@ def strategy(tier):
         "prog": prog, "seeds": seeds, "n_initial": st.integers(0, 2), "reuse_streams": st.sampled_from([False, False, True, "updater"]),
         "long_lived_producers": st.sampled_from([False, False, False, True, True]),
         "two_types": st.booleans(),
+        "same_rep_object": st.booleans(),
         "drive2": st.sampled_from(["start", "start", "steps", "bounded"]), "k2": st.integers(1, 6),
         "reinit_listener": st.sampled_from([None, None, "START_REPLICATION", "STARTING", "START", "TIME_CHANGED",
                                             "WARMUP", "STOP", "STOP"]),
@@ -198,8 +199,11 @@ def run_case(case):
         # ---- the replication under test
         h.model.seeds = list(case["seeds"])
         h.rec = Recorder()
+        same_obj = bool(case.get("same_rep_object")) and kind != "none" and not pr["other_rep"]
+        if same_obj:
+            out.label("same-replication-object")
         try:
-            h.initialize()
+            h.initialize(same_object=same_obj)
         except Exception as e:
             if llp and isinstance(e, ValueError) and "timestamp" in str(e):
                 # (K-C06-1: a stale persistent of the previous replication rejects an earlier timestamp)
